@@ -127,8 +127,9 @@ def gen_ops(rng, kind, doc, n, p_invalid=0.12):
         r = rng.random()
         if r < 0.08: ops.append({'m': 'commit'}); continue
         if r < 0.15: ops.append({'m': 'newsession'}); continue
+        if r < 0.19: ops.append({'m': 'touch_other', 'a': [rng.randint(0, 9)]}); continue
         path, c = rng.choice(containers(shadow))
-        if r < 0.25:
+        if r < 0.28:
             names = READERS['list' if isinstance(c, list) else 'dict']
             op = {'p': path, 'm': 'read', 'a': [rng.choice(names)]}
         elif rng.random() < p_invalid:
@@ -155,7 +156,10 @@ def gen_ops(rng, kind, doc, n, p_invalid=0.12):
 READERS = {}
 def load_tables():
     if not READERS:
-        t = c28_scan.tables()
+        # only the CPython side: the search must keep working when the scan of ormtypes.py refuses the file
+        lm, lr = c28_scan.cpython_mutators(list)
+        dm, dr = c28_scan.cpython_mutators(dict)
+        t = {'cpython_list_mutators': lm, 'cpython_dict_mutators': dm, 'cpython_list_readers': lr, 'cpython_dict_readers': dr}
         skip = {'__class__', '__new__', '__init_subclass__', '__subclasshook__', '__class_getitem__', '__doc__', '__setattr__', '__delattr__', '__hash__'}
         READERS['list'] = [n for n in t['cpython_list_readers'] if n not in skip]
         READERS['dict'] = [n for n in t['cpython_dict_readers'] if n not in skip]
@@ -240,6 +244,7 @@ def cops(ops):
         if op['m'] == 'commit': out.append('OCommit')
         elif op['m'] == 'newsession':
             sess += 1; out.append('(ONewSession (%d%%nat, 1%%nat))' % sess)
+        elif op['m'] == 'touch_other': out.append('(OAct [] ARead)')
         else: out.append('(OAct %s %s)' % (cpath(op['p']), cact(op['m'], op['a'])))
     return '[%s]' % ';\n  '.join(out)
 
@@ -249,7 +254,7 @@ def cstate(st):
 HEADER = ('Require Import PonyV.Base.PyBase PonyV.Model.C28Tracked PonyV.Gen.Mutators PonyV.Model.C28Wrapped.\nOpen Scope Z_scope.\n')
 
 
-def run_bools(ctx, exprs, chunk=150):
+def run_bools(ctx, exprs, chunk=280):
     chunks = []
     for i in range(0, len(exprs), chunk):
         part = exprs[i:i + chunk]
@@ -361,7 +366,7 @@ def classify(kind, doc, ops, res):
     """finding key of a (shrunk) failing sequence"""
     cont_kind = lambda op: 'array' if kind == 'array' else ('list' if op['m'] in LIST_OPS or (op['m'] == 'raw' and op.get('t') == 'list') else 'dict')
     name = lambda op: op['a'][0] if op['m'] == 'raw' else PYNAME.get(op['m'], op['m'])
-    acts = [(op, tr) for op, tr in zip(ops, res['trace']) if op['m'] not in ('commit', 'newsession')]
+    acts = [(op, tr) for op, tr in zip(ops, res['trace']) if op['m'] not in ('commit', 'newsession', 'touch_other')]
     for op, tr in acts:
         if not tr['tagged']:
             form = 'non-list-iterable' if (op['m'] == 'extend' and not op['a'][0]) or (op['m'] == 'setslice' and not op['a'][2]) else 'plain-arguments'
@@ -442,7 +447,26 @@ def search(ctx, deep):
             dist['sweep_changed_value'] += 1
             nontriv.add(json.dumps([kind, ops], sort_keys=True))
         if res['lost']: record(failure_of(kind, doc, ops, res))
-    # the two-step shape of the iterable findings: insert containers through a non-list iterable, commit, change them
+    # two steps: insert a container with every inserting method / argument form, commit, then change the inserted container
+    doc = {'a': [1, 2], 'd': {'x': 1}}
+    new = lambda: {'n': [5]}
+    inserters = [{'p': ['a'], 'm': 'setitem', 'a': [0, new()]}, {'p': ['a'], 'm': 'setslice', 'a': [1, None, True, [new()]]}, {'p': ['a'], 'm': 'append', 'a': [new()]},
+                 {'p': ['a'], 'm': 'extend', 'a': [True, [new()]]}, {'p': ['a'], 'm': 'insert', 'a': [1, new()]},
+                 {'p': ['d'], 'm': 'dsetitem', 'a': ['k', new()]}, {'p': ['d'], 'm': 'update', 'a': ['dict', [['k', new()]]]},
+                 {'p': ['d'], 'm': 'update', 'a': ['pairs', [['k', new()]]]}, {'p': ['d'], 'm': 'update', 'a': ['kwargs', [['k', new()]]]},
+                 {'p': ['d'], 'm': 'setdefault', 'a': ['k', new()]}, {'p': [], 'm': 'dsetitem', 'a': ['k', new()]}]
+    for ins in inserters:
+        shadow = copy.deepcopy(doc)
+        before = set(json.dumps(p) for p, _ in containers(shadow))
+        plain_step(shadow, ins)
+        fresh = [p for p, c in containers(shadow) if json.dumps(p) not in before and isinstance(c, list)]
+        if not fresh: continue
+        ops = [ins, {'m': 'commit'}, {'p': fresh[0], 'm': 'append', 'a': [6]}]
+        res = check_seq('json', doc, ops)
+        evals += 1
+        nontriv.add(json.dumps(ops, sort_keys=True))
+        if res['lost']: record(failure_of('json', doc, ops, res))
+    # the same shape for the iterable findings: insert containers through a non-list iterable, commit, change them
     for ops in ([{'p': ['a'], 'm': 'extend', 'a': [False, [[9]]]}, {'m': 'commit'}, {'p': ['a', -1], 'm': 'append', 'a': [10]}],
                 [{'p': ['a'], 'm': 'setslice', 'a': [0, 1, False, [{}]]}, {'m': 'commit'}, {'p': ['a', 0], 'm': 'dsetitem', 'a': ['z', None]}],
                 [{'p': ['a'], 'm': 'extend', 'a': [True, [[9]]]}, {'m': 'commit'}, {'p': ['a', -1], 'm': 'append', 'a': [10]}],
